@@ -1001,8 +1001,17 @@ pub fn explore(sc: &Scenario, opts: &IlvOpts, col: &mut Collector) -> IlvStats {
             runner.stats.determinism_checks += 1;
             first = false;
         }
-        if tr.cut.is_none() && !tr.panicked {
-            outcomes.insert(tr.outcome);
+        if tr.cut.is_none() && !tr.panicked && outcomes.insert(tr.outcome) && std::env::var("VERIF_DUMP_OUTCOMES").is_ok() {
+            // development aid: print every new final outcome with its schedule
+            eprintln!(
+                "OUTCOME {}: {:?} schedule={:?}",
+                sc.name,
+                tr.calls.iter().map(|c| c.iter().map(|(o, r)| format!("{}->{}", o.short(), r.short())).collect::<Vec<_>>()).collect::<Vec<_>>(),
+                tr.choices
+            );
+            if outcomes.len() == 1 {
+                eprintln!("REPLAYJSON {}", replay_json(sc, &tr.choices, json!({})));
+            }
         }
         if tr.conflict {
             conflict_execs += 1;
